@@ -27,24 +27,62 @@ open DV DV.Gen
 
 /-- **The ground truth has zero residual** (supplied and fitted intensity levels): an image
 rendered as `vmin + (vmax − vmin)·profile` is reproduced exactly by the fit model at the true
-droplet parameters with `vrng = vmax − vmin`. -/
-theorem truth_zero_residual (vmin vmax profile : ℝ) :
-    residual_fixed_levels vmin (vmax - vmin) profile (scale_field vmin vmax profile) = 0 ∧
-    residual_fitted_levels vmin (vmax - vmin) profile (scale_field vmin vmax profile) = 0 := by
+droplet parameters with `vrng = vmax − vmin` — in whatever unit the deviations are measured. -/
+theorem truth_zero_residual (vmin vmax profile scale : ℝ) :
+    residual_fixed_levels vmin (vmax - vmin) profile (scale_field vmin vmax profile) scale = 0 ∧
+    residual_fitted_levels vmin (vmax - vmin) profile (scale_field vmin vmax profile) scale = 0 := by
   simp [residual_fixed_levels, residual_fitted_levels, scale_field]
+
+/-- the unit in which `refine_droplet` measures deviations (regenerated `residual_scale`) is the absolute
+intensity range, 1 for a constant image: always positive, so dividing by it is harmless -/
+theorem residual_scale_spec (vrng : ℝ) :
+    residual_scale vrng = (if vrng = 0 then 1 else |vrng|) ∧ 0 < residual_scale vrng := by
+  unfold residual_scale
+  by_cases h0 : vrng = 0
+  · subst h0; simp
+  · rcases lt_or_gt_of_ne h0 with h | h
+    · simp [h0, h, abs_of_neg h]
+    · simp [h0, not_lt.mpr h.le, abs_of_pos h, h]
 
 /-- the residual is zero ONLY where model and image agree: a non-zero residual at the truth would
 mean the renderer and the fit model differ -/
 theorem residual_eq_zero_iff (vmin vrng render data : ℝ) :
-    residual_fixed_levels vmin vrng render data = 0 ↔ data = vmin + vrng * render := by
-  simp only [residual_fixed_levels]
+    residual_fixed_levels vmin vrng render data (residual_scale vrng) = 0 ↔ data = vmin + vrng * render := by
+  have hs := (residual_scale_spec vrng).2
+  simp only [residual_fixed_levels, div_eq_zero_iff, hs.ne', or_false]
   constructor <;> intro h <;> linarith
+
+/-- **What the solver sees does not depend on the intensity scale of the image** (defect D23, repaired): mapping the
+image and the intensity levels by the same affine map `x ↦ a·x + b`, `a > 0`, leaves every residual unchanged —
+for supplied levels (`vmin, vrng ↦ a·vmin + b, a·vrng`) and for fitted levels (where the fitted parameters are mapped
+likewise and the unit is fixed from the initial range `vrng0`).  The solver therefore takes the same steps and stops at
+the same point whatever the contrast and offset of the image; without the division by `residual_scale` the residual
+would scale with `a` and the ABSOLUTE gradient tolerance of the stopping rule would end the fit early on low-contrast images. -/
+theorem residual_intensity_invariant (a b : ℝ) (ha : 0 < a) (vmin vrng vrng0 render data : ℝ) (h0 : vrng0 ≠ 0) :
+    residual_fixed_levels (a * vmin + b) (a * vrng) render (a * data + b) (residual_scale (a * vrng0))
+      = residual_fixed_levels vmin vrng render data (residual_scale vrng0) ∧
+    residual_fitted_levels (a * vmin + b) (a * vrng) render (a * data + b) (residual_scale (a * vrng0))
+      = residual_fitted_levels vmin vrng render data (residual_scale vrng0) := by
+  have h1 : residual_scale (a * vrng0) = a * residual_scale vrng0 := by
+    rw [(residual_scale_spec _).1, (residual_scale_spec _).1]
+    simp [h0, ha.ne', abs_mul, abs_of_pos ha]
+  have hs := (residual_scale_spec vrng0).2
+  simp only [residual_fixed_levels, residual_fitted_levels, h1]
+  constructor <;> field_simp <;> ring
+
+/-- non-vacuity / what the repair changed: WITHOUT the unit (scale 1) the residual of the mapped image is `a` times the
+residual of the original, so an absolute stopping tolerance is met `a` times (its gradient `a²` times) sooner -/
+theorem residual_unscaled_scales (a b vmin vrng render data : ℝ) :
+    residual_fixed_levels (a * vmin + b) (a * vrng) render (a * data + b) 1
+      = a * residual_fixed_levels vmin vrng render data 1 := by
+  simp only [residual_fixed_levels]; ring
 
 /-- with the true levels, the residual vanishes exactly when the rendered profile values agree
 (for `vmin ≠ vmax`): the minimiser of cost 0 reproduces the image cell by cell -/
 theorem zero_residual_iff_same_profile (vmin vmax p p' : ℝ) (h : vmin ≠ vmax) :
-    residual_fixed_levels vmin (vmax - vmin) p' (scale_field vmin vmax p) = 0 ↔ p' = p := by
-  simp only [residual_fixed_levels, scale_field]
+    residual_fixed_levels vmin (vmax - vmin) p' (scale_field vmin vmax p) (residual_scale (vmax - vmin)) = 0 ↔ p' = p := by
+  have hs := (residual_scale_spec (vmax - vmin)).2
+  simp only [residual_fixed_levels, scale_field, div_eq_zero_iff, hs.ne', or_false]
   have : vmax - vmin ≠ 0 := sub_ne_zero.mpr (Ne.symm h)
   constructor
   · intro h1
